@@ -45,6 +45,30 @@ CLAIMED = {
                      "and slices",
         "design_ref": "DESIGN.md section 3, C02",
     },
+    "C03": {
+        "text": "Decides structural clauses D1-D5 of C03: the 1-D point selection uses the component level vector only through the "
+                "current dimension's entry (depends-only-on scan over all 11 uses in the three selection routines); the selection bound "
+                "is clamped from below by a constant >= 1 and the left end point is appended unconditionally, so end points and the "
+                "root midpoint are in every component grid; apply_remove(sort=True) reaches the ascending re-sort after every step; the "
+                "scheme is re-read after every raise_lmax; the position-keyed caches are reset each step and have no other writer. "
+                "Monotone growth, coefficient sums and reproduction at the points are NOT decided.",
+        "technique": "depends-only-on (use-site classification of a parameter), interval lower bound of the selection bound, constant "
+                     "flag propagation, must-pass-through on the CFG, who-may-write",
+        "design_ref": "DESIGN.md section 3, C03",
+    },
+    "C06": {
+        "text": "Decides the code-shape premises D0-D6 of the inductive well-formedness argument for C06: the initial intervals are "
+                "(p[i], p[i+1]) with levels (l[i], l[i+1]); a split yields (start, m), (m, end) with one midpoint term, levels (l0, n), "
+                "(n, l1) with n = max(levels)+1 (polynomial identity), non-negative child coarsening, midpoint assertion dominating "
+                "both constructions; the refined position is removed and exactly its children added on every path and only "
+                "RefinementContainer mutates its list; lmax and object coarsening get the same positive increment; the margin-based "
+                "selection (benefit >= benefit_max*margin, cursor, exclusion of new children, loop until exhausted, do_refinement "
+                "always False, fresh benefit_max); every rebalancing level change is paired with the successor's shared end. The "
+                "binary-tree relation after rebalancing and tiling as numbers are NOT decided.",
+        "technique": "value-term identity, polynomial identity, guard-based interval reasoning, post-dominance, who-may-write, paired "
+                     "stores with successor-index polynomial check",
+        "design_ref": "DESIGN.md section 3, C06",
+    },
     "C05": {
         "text": "Decides structural clauses D1-D5 of C05: every accumulator (area, container, operation) receives the same "
                 "coefficient-weighted term in all four evaluation routines; removals subtract value and evaluations of the popped position "
